@@ -89,6 +89,10 @@ def make_case(rng):
     N = int(rng.integers(0, 8))
     tkind = str(rng.choice(['absent', 'absent', 'Time', 'TIME', 'time', 'two']))
     names = ['FSC-H', 'SSC-A', 'FL1-H', 'FL2-W'][:D]
+    if rng.random() < 0.04:
+        # a panel of more than 99 parameters: three-digit keyword indices ($P100N ...), long tables of per-channel attributes
+        D = int(rng.integers(100, 130))
+        names = ['P%03d-%s' % (j, 'AHW'[j % 3]) for j in range(D)]
     if tkind in ('Time', 'TIME', 'time'):
         names.append(tkind)
     elif tkind == 'two':
